@@ -277,6 +277,16 @@ theorem decode_serialize (p : Profile) (c : Cmd) (id : Nat)
     · have : WriteMemStacked.new p ws = .err .invalidPacket := hcr.1.2 (by omega)
       rw [this] at hn; cases hn
 
+/-- **serialize_determines_fields**: the wire bytes determine request id, SCD length and
+every SCD field — two constructible commands with the same bytes carry the same request. -/
+theorem serialize_determines_fields (p : Profile) (c₁ c₂ : Cmd) (id₁ id₂ : Nat)
+    (h₁ : Constructible p c₁) (h₂ : Constructible p c₂) (hid₁ : id₁ < 2 ^ 16) (hid₂ : id₂ < 2 ^ 16)
+    (h : c₁.serialize id₁ = c₂.serialize id₂) : fields c₁ id₁ = fields c₂ id₂ := by
+  have e₁ := decode_serialize p c₁ id₁ h₁ hid₁
+  rw [h, decode_serialize p c₂ id₂ h₂ hid₂] at e₁
+  injection e₁ with e₁
+  exact e₁.symm
+
 /-- **len_agree**: the number of serialized bytes equals the reported `cmd_len()`,
 which is 12 + the `scd_len` stored in the packet (bytes 8..10), which is the SCD
 length the layout prescribes and fits 16 bits. -/
